@@ -255,7 +255,7 @@ func (g *G) GenProgram(maxChain, maxEvents, maxOps int) *Program {
 			}
 		}
 		lastWith = strings.HasPrefix(st.Kind, "With")
-		st.Decoy = st.Kind != "UpdateContext" && r.Chance(1, 2)
+		st.Decoy = r.Chance(1, 2)
 		p.Chain = append(p.Chain, st)
 	}
 	nev := 1 + r.Intn(maxEvents)
@@ -510,12 +510,21 @@ func (x *Exec) BuildLogger(base zerolog.Logger, chain []Step, out *Rec, hookLog 
 		case "WithCtx":
 			l = l.With().Ctx(context.WithValue(context.Background(), ctxKey{}, st.CtxVal)).Logger()
 		case "UpdateContext":
+			// a copy of the logger made before the update (loggers are values: Level returns one) and updated on its own
+			// afterwards: the two contexts are separate from then on
+			var cp zerolog.Logger
+			if st.Decoy {
+				cp = l.Level(zerolog.TraceLevel)
+			}
 			l.UpdateContext(func(c zerolog.Context) zerolog.Context {
 				for _, op := range st.Ops {
 					c = x.applyContext(c, op)
 				}
 				return c
 			})
+			if st.Decoy {
+				cp.UpdateContext(func(c zerolog.Context) zerolog.Context { return c.Str("DECOY", "update of a copy made earlier") })
+			}
 		case "Hook":
 			hs := make([]zerolog.Hook, len(st.Hooks))
 			for j, h := range st.Hooks {
